@@ -935,13 +935,13 @@ pub fn configs() -> Vec<CCfg> {
 
 fn random_strategy(with_abort: bool) -> BoxedStrategy<SchedCase> {
     let op = if with_abort {
-        prop_oneof![30 => (1u32..=5).prop_map(POp::Write), 20 => Just(POp::Flush), 20 => Just(POp::Wait), 10 => Just(POp::Abort), 4 => (2u32..=12).prop_map(POp::WriteAll), 1 => (130u32..=300).prop_map(POp::WriteAll)].boxed()
+        prop_oneof![24 => (1u32..=5).prop_map(POp::Write), 6 => (6u32..=17).prop_map(POp::Write), 20 => Just(POp::Flush), 20 => Just(POp::Wait), 10 => Just(POp::Abort), 4 => (2u32..=12).prop_map(POp::WriteAll), 1 => (130u32..=300).prop_map(POp::WriteAll)].boxed()
     } else {
-        prop_oneof![30 => (1u32..=5).prop_map(POp::Write), 20 => Just(POp::Flush), 20 => Just(POp::Wait), 4 => (2u32..=12).prop_map(POp::WriteAll), 1 => (130u32..=300).prop_map(POp::WriteAll)].boxed()
+        prop_oneof![24 => (1u32..=5).prop_map(POp::Write), 6 => (6u32..=17).prop_map(POp::Write), 20 => Just(POp::Flush), 20 => Just(POp::Wait), 4 => (2u32..=12).prop_map(POp::WriteAll), 1 => (130u32..=300).prop_map(POp::WriteAll)].boxed()
     };
     (
         vec(op, 0..=6),
-        proptest::sample::select(&[1usize, 2, 3][..]),
+        proptest::sample::select(&[1usize, 2, 3, 2, 3, 5, 8][..]),
         any::<bool>(),
         0u8..=2,
         any::<bool>(),
@@ -980,7 +980,7 @@ fn random_strategy(with_abort: bool) -> BoxedStrategy<SchedCase> {
 pub const META_C10: Meta = Meta {
     id: "C10",
     level: "exploration",
-    rule: "Schedule enumeration on the real chunker code through hook H1: producer programs of up to 4 operations (thorough 5) over {write(1), write(2), flush, wait-until-delivered} + drop (random programs also write_all of up to 300 bytes, i.e. hundreds of chunks), chunk size 2 (identity) and of up to 3 operations with the gzip writer (chunk size 6; every operation is several chunker writes), against a consumer that parks on Pending, with same/fresh waker per poll (wakes to superseded wakers are ignored), 0 or 2 spurious polls, with/without is_end_stream/size_hint sampling; every schedule with <= 2 preemptions (thorough 3) is executed by stateless DFS (two real threads, exactly one runs, hand-over at lock acquisitions, wake() and operation boundaries); plus proptest over programs of <= 6 operations, chunk sizes 1-3 and random choice vectors (unbounded preemptions). Oracle (history invariants): no quiescent state with the consumer parked and un-woken while data, end or abort is undelivered; everything flushed is received in order before a clean end; bounded polls after the writer is gone. Non-trivial = schedule in which the consumer parked at least once or an actor was preempted; distinct by (program, config, choice vector).",
+    rule: "Schedule enumeration on the real chunker code through hook H1: producer programs of up to 4 operations (thorough 5) over {write(1), write(2), flush, wait-until-delivered} + drop (random programs also write_all of up to 300 bytes, i.e. hundreds of chunks), chunk size 2 (identity) and of up to 3 operations with the gzip writer (chunk size 6; every operation is several chunker writes), against a consumer that parks on Pending, with same/fresh waker per poll (wakes to superseded wakers are ignored), 0 or 2 spurious polls, with/without is_end_stream/size_hint sampling; every schedule with <= 2 preemptions (thorough 3) is executed by stateless DFS (two real threads, exactly one runs, hand-over at lock acquisitions, wake() and operation boundaries); plus proptest over programs of <= 6 operations, chunk sizes {1,2,3,5,8}, writes of 1-17 bytes and random choice vectors (unbounded preemptions). Oracle (history invariants): no quiescent state with the consumer parked and un-woken while data, end or abort is undelivered; everything flushed is received in order before a clean end; bounded polls after the writer is gone. Non-trivial = schedule in which the consumer parked at least once or an actor was preempted; distinct by (program, config, choice vector).",
     assumptions: &[
         "interleavings are at lock / wake / operation granularity: complete for this code because every shared field sits behind the one instrumented mutex",
         "no weak-memory effects (all sharing goes through std::sync::Mutex)",
